@@ -152,6 +152,9 @@ func specMs(d time.Duration) float64 { return ConvertDurationToMs(d) }
 //@ ensures[C14.unlocked]      !held(resultsMu)
 //@ modifies elemtype(*ProbeResponse), resultsMu, ghost clock
 //@ loop 1 invariant[unlocked] !held(resultsMu)
+// every reply the driver hands over without error that passes validation is given to writeProbe in the same iteration
+// (nothing accepted is dropped, whatever the sender is doing at that moment)
+//@ loop 1 step[C07.recv.all]  ncalls(TracerouteDriver.ReceiveProbe) == iter(ncalls(TracerouteDriver.ReceiveProbe)) + 1 && lastres(TracerouteDriver.ReceiveProbe, 0) != nil && lastres(TracerouteDriver.ReceiveProbe, 1) == nil ==> ncalls("TracerouteParallel$1") == iter(ncalls("TracerouteParallel$1")) + 1 && lastarg("TracerouteParallel$1", probe) == lastres(TracerouteDriver.ReceiveProbe, 0)
 
 // ---- C10: local address discovery opens one UDP socket and hands it to the caller, or fails leaving nothing open
 
